@@ -143,6 +143,7 @@ CORE = [
     ["struct", [["varr", ["delim", ["union", ["u8", "u16"]], 32], 2], "bool"]],
     ["struct", ["f16", "bool", "f32"]],
     ["struct", [["varr", "byte", 4], ["varr", "utf8", 3]]],
+    ["struct", [["delim", ["struct", [["delim", ["struct", ["u8"]], 16], "u8"]], 64], "u8"]],
 ]
 
 EXTRA = [
@@ -168,3 +169,85 @@ def catalogue(tier: str, seed: int) -> typing.List[Spec]:
         return CORE + EXTRA
     rnd = random.Random(seed)
     return CORE + rnd.sample(EXTRA, 3)
+
+
+def random_shape(rnd: typing.Any, depth: int = 2, top: bool = True) -> Spec:
+    """Seeded random composite spec with small expansions (for exact-set / offset conditions)."""
+    leaves = ["bool", "u3", "u4", "u5", "u8", "u12", "i13", "u16", "tu7", "void3", "void5", "u24"]
+
+    def scalar(d: int) -> Spec:
+        r = rnd.random()
+        if d <= 0 or r < 0.55:
+            return rnd.choice(leaves)
+        return composite_(d - 1)
+
+    def member(d: int) -> Spec:
+        r = rnd.random()
+        e = scalar(d)
+        if isinstance(e, str) and e.startswith("void"):
+            return e
+        if r < 0.25:
+            return ["varr", e, rnd.choice([1, 2, 3])]
+        if r < 0.4:
+            return ["farr", e, rnd.choice([1, 2, 3])]
+        return e
+
+    def composite_(d: int) -> Spec:
+        r = rnd.random()
+        if r < 0.2:
+            fields = [member(d) for _ in range(rnd.choice([2, 2, 3]))]
+            fields = [f if not (isinstance(f, str) and f.startswith("void")) else "u8" for f in fields]
+            c = ["union", fields]  # type: Spec
+        else:
+            fields = [member(d) for _ in range(rnd.choice([1, 2, 3, 3, 4]))]
+            if rnd.random() < 0.35:
+                # the shape that exercises inter-field padding: variable sub-byte prefix, composite, sub-byte tail
+                fields = [["varr", rnd.choice(["u4", "u12", "bool", "u3", "tu7"]), rnd.choice([1, 2, 3])],
+                          composite_(max(d - 1, 0)) if d > 0 else ["struct", ["u8"]]] + fields[:2]
+            c = ["struct", fields]
+        if rnd.random() < 0.25:
+            return ["delim", c, rnd.choice([None, None, 64, 128])]
+        return c
+
+    for _ in range(100):
+        c = composite_(depth)
+        if c[0] == "delim" and c[2] is not None:
+            from .oracle import layout as _L
+
+            if c[2] < _L.interval(c[1], {})[1]:
+                c = ["delim", c[1], None]
+        try:
+            from .oracle import layout as _L
+
+            if _nested_ok(c) and len(_L.enumerate_set(c)) <= 200:
+                return c
+        except Exception:  # pylint: disable=broad-except
+            continue
+    return ["struct", ["u8"]]
+
+
+def _nested_ok(spec: Spec) -> bool:
+    """Explicit extents of nested delimited members must admit the inner type."""
+    from .oracle import layout as _L
+
+    if isinstance(spec, str):
+        return True
+    if spec[0] == "delim":
+        if len(spec) > 2 and spec[2] is not None and spec[2] < _L.interval(spec[1], {})[1]:
+            return False
+        return _nested_ok(spec[1])
+    if spec[0] in ("farr", "varr"):
+        return _nested_ok(spec[1])
+    return all(_nested_ok(f) for f in spec[1])
+
+
+def random_shapes(seed: int, n: int, depth: int = 2) -> typing.List[Spec]:
+    import random
+
+    rnd = random.Random(seed * 7919 + 13)
+    out = []  # type: typing.List[Spec]
+    while len(out) < n:
+        c = random_shape(rnd, depth)
+        if c not in out:
+            out.append(c)
+    return out
